@@ -20,9 +20,10 @@ type C16Cfg struct {
 	WindowMs    int64  `json:"window_ms"`     // 0 = unset
 	BlockTimeMs int64  `json:"block_time_ms"` // 0 = unset (the default)
 	TrustingMs  int64  `json:"trusting_ms"`
-	FromHeight  uint64 `json:"from_height"`  // 0 = unset; else taken modulo the head
-	FromHashAt  uint64 `json:"from_hash_at"` // 0 = unset; else hash of the chain header at this height (mod head)
-	Grow        int    `json:"grow"`         // headers the network grows by before this configuration starts
+	FromHeight  uint64 `json:"from_height"`           // 0 = unset; else taken modulo the head
+	FromHashAt  uint64 `json:"from_hash_at"`          // 0 = unset; else hash of the chain header at this height (mod head)
+	Grow        int    `json:"grow"`                  // headers the network grows by before this configuration starts
+	Unreachable int    `json:"unreachable,omitempty"` // 1: SyncFromHeight above the network head; 2: SyncFromHash unknown to every peer
 }
 
 type C16Scenario struct {
@@ -48,6 +49,10 @@ func genC16Cfg(t *rapid.T) C16Cfg {
 		c.FromHeight = rapid.Uint64Range(1, 500).Draw(t, "fromheight")
 	case 1:
 		c.FromHashAt = rapid.Uint64Range(1, 500).Draw(t, "fromhash")
+	case 2:
+		// a tail nobody can serve: a height above the network head, or a hash no peer knows. Start may (and
+		// will) fail; it must not panic or hang, and the store must stay what it was
+		c.Unreachable = rapid.IntRange(1, 2).Draw(t, "unreachable")
 	}
 	return c
 }
@@ -81,6 +86,12 @@ func (c C16Cfg) opts(chain *vh.Chain, head uint64) []hsync.Option {
 	}
 	if c.FromHeight > 0 {
 		o = append(o, hsync.WithSyncFromHeight(1+(c.FromHeight-1)%head))
+	}
+	switch c.Unreachable {
+	case 1:
+		o = append(o, hsync.WithSyncFromHeight(head+5))
+	case 2:
+		o = append(o, hsync.WithSyncFromHash(hex.EncodeToString(vh.Variant(chain.At(1), vh.AdvForged, 99).Hash())))
 	}
 	if c.FromHashAt > 0 {
 		o = append(o, hsync.WithSyncFromHash(hex.EncodeToString(chain.At(1+(c.FromHashAt-1)%head).Hash())))
@@ -227,10 +238,25 @@ func runC16(t *testing.T, s C16Scenario) (res Result) {
 			}
 			// wrap-around detector: nothing above the head is ever asked for
 			for _, c := range e.getter.Calls()[callsBefore:] {
-				if c.Method == "GetByHeight" && c.A > tip {
+				if c.Method == "GetByHeight" && c.A > tip && cfg.Unreachable != 1 {
 					res.failf("%s: tail computation asked the getter for height %d, the head is %d", tag, c.A, tip)
 					return
 				}
+			}
+			if cfg.Unreachable > 0 {
+				// no panic, no hang (judged above); whatever Start/Head answered, the store is still one canonical run
+				res.label(fmt.Sprintf("unreachable_tail_start_err=%v", startErr != nil))
+				nontrivCfg = true
+				_ = syncer.Stop(context.Background())
+				e.syncer = nil
+				synctest.Wait()
+				if _, err := e.st.Head(ctx); err == nil {
+					if v := e.storeIsCanonicalRun(); v != "" {
+						res.failf("%s: %s", tag, v)
+						return
+					}
+				}
+				continue
 			}
 			if startErr != nil {
 				res.failf("%s: Start failed although the getter is honest and holds the whole chain: %v", tag, startErr)
